@@ -354,6 +354,14 @@ EvalEnv(e) ==
               evals, firstEvalT, pendingV, progS, progF, cancelT, timeoutSeen, retSeen, ret, mS, mF, mD, mSetup, mSetupRes,
               labelsBad, stageCur, stageOpen, setupCleanupSeen, rvOK>>)
 
+\* the ids the scenario kept beyond their iterations (as a scenario collecting `t.Iteration` does) still read as they did
+\* when it was handed them: a = how many do not, b2 = the first of those
+IdsKept(e) ==
+    /\ why' = why \cup Fails(<< <<e.a = 0, "C03", "iteration-id-kept-by-the-scenario-changed-after-its-invocation">> >>)
+    /\ Unch(<<lmax, skipped, setupSeen, ids, liveIds, liveH, endedIds, cleaned, succT, failT, sumTicks, lateSum, dropSum, stopSeen, limitSeen,
+              evals, firstEvalT, pendingV, progS, progF, cancelT, timeoutSeen, retSeen, ret, mS, mF, mD, mSetup, mSetupRes,
+              labelsBad, stageCur, stageOpen, setupCleanupSeen, rvOK>>)
+
 Other(e) == why' = why /\
     Unch(<<lmax, skipped, setupSeen, ids, liveIds, liveH, endedIds, cleaned, succT, failT, sumTicks, lateSum, dropSum, stopSeen, limitSeen,
            evals, firstEvalT, pendingV, progS, progF, cancelT, timeoutSeen, retSeen, ret, mS, mF, mD, mSetup, mSetupRes,
@@ -383,6 +391,7 @@ Next == /\ i < Len(T[tr].ev)
              [] e.k = "timeoutmsg" -> TimeoutMsg(e)
              [] e.k = "noreturn" -> NoReturn(e)
              [] e.k = "rv" -> Rendezvous(e)
+             [] e.k = "idskept" -> IdsKept(e)
              [] e.k = "idle" -> Idle(e)
              [] e.k = "ret" -> Return(e)
              [] e.k = "metric" -> Metric(e)
